@@ -3,6 +3,8 @@ import DiskfsModel.Model.Ext4.Bitmap
 import DiskfsModel.Model.Ext4.FileIO
 import DiskfsModel.Model.Ext4.DirPack
 import DiskfsModel.Model.Ext4.Alloc
+import DiskfsModel.Model.Ext4.AllocSlow
+import DiskfsModel.Model.Ext4.Links
 namespace Driver.Ext4Ops
 open Diskfs Diskfs.Ext4 Driver
 
@@ -33,6 +35,7 @@ def rw (args : List String) : String :=
   let n := argNatD args "n"
   let lt := argNatD args "lt" == 1
   let cum := argNatD args "cum" == 1
+  let zf := argNatD args "zf" == 1
   let es := parseExtents ((arg args "ext").getD "-")
   match arg args "op" with
   | some "read" =>
@@ -43,7 +46,7 @@ def rw (args : List String) : String :=
     | .needAlloc => "needalloc"
     | .err => "err"
   | some "write" =>
-    match writeE lt cum bs es size off (List.replicate n 0) with
+    match writeZ zf lt cum bs es size off (List.replicate n 0) with
     | .ok r => s!"io={iosStr r.ws}\tn={r.written}\tsize={r.size}\toff={r.off}"
     | .panic => "panic"
     | .needAlloc => "needalloc"
@@ -78,6 +81,32 @@ def dirpack (args : List String) : String :=
     | _ => none
   s!"out={hexOr (DirPack.pack bs csum zeroTail ents)}"
 
+/-- zero the checksum field (last 4 bytes) of every `bs`-sized block -/
+def maskCsum (bs : Nat) : (fuel : Nat) → Bytes → Bytes
+  | 0, b => b
+  | fuel + 1, b =>
+    if b.length < bs || bs < 4 then b
+    else (b.take (bs - 4) ++ [0, 0, 0, 0]) ++ maskCsum bs fuel (b.drop bs)
+
+def parseEnts (s : String) : List DirPack.Entry :=
+  (s.splitOn ",").filterMap fun t =>
+    match t.splitOn ":" with
+    | [a, b, c] => match a.toNat?, b.toNat?, fromHex c with
+      | some i, some ty, some nm => some ⟨i, nm, ty⟩
+      | _, _, _ => none
+    | _ => none
+
+/-- ext4.dirrewrite: the parent directory's blocks before a Remove and the remaining entries → Remove's
+    write-back (`pad=0`: as found, blocks behind the re-packed bytes keep their contents) → the blocks afterwards -/
+def dirRewrite (args : List String) : String :=
+  let bs := argNatD args "bs" 1024
+  let csum := argNatD args "csum" == 1
+  let pad := argNatD args "pad" == 1
+  let old := (argHex args "old").getD []
+  let ents := parseEnts ((arg args "ents").getD "")
+  let out := DirPack.rewriteDir pad bs csum zeroTail old ents
+  s!"out={hexOr (if csum then maskCsum bs out.length out else out)}"
+
 /-- runs "p+c,p+c" → bits of length `len` (true = in use) -/
 def bitsOfRuns (len : Nat) (s : String) : Alloc.Bits :=
   let runs : List (Nat × Nat) := if s == "-" || s == "" then [] else
@@ -95,6 +124,26 @@ def allocFast (args : List String) : String :=
   match Alloc.fastPick groups n with
   | some (g, p) => s!"ext={fdb + g * bpg + p}+{n}"
   | none => "none"
+
+/-- ext4alloc.policy: allocateExtents' whole choice of blocks (fast path, else slow path). `hint` lists the start
+    blocks of the extents the real code returned, in its order: it only decides the order among pieces of EQUAL
+    size, which sort.Slice leaves unspecified. -/
+def allocPolicyOp (args : List String) : String :=
+  let n := argNatD args "n"
+  let fdb := argNatD args "fdb"
+  let bpg := argNatD args "bpg"
+  let sbfree := argNatD args "sbfree"
+  let groups := (((arg args "runs").getD "").splitOn "/").map (bitsOfRuns bpg)
+  let hintAbs := natList ((arg args "hint").getD "-")
+  let hint : Nat → List Nat := fun g =>
+    hintAbs.filterMap fun a => if fdb + g * bpg ≤ a ∧ a < fdb + (g + 1) * bpg then some (a - fdb - g * bpg) else none
+  if n == 0 || sbfree < n then "none" else
+  match Alloc.allocPolicy (Alloc.hintOrder hint) groups n with
+  | none => "none"
+  | some rs =>
+    let step := fun (acc : List String × Nat) (r : Alloc.Run) =>
+      (acc.1 ++ [s!"{acc.2}:{fdb + r.1 * bpg + r.2.1}:{r.2.2}"], acc.2 + r.2.2)
+    s!"ext={joinOr (rs.foldl step ([], 0)).1}"
 
 def natsStr (xs : List Nat) : String := joinOr (xs.map toString)
 
@@ -151,6 +200,75 @@ def accStep (args : List String) : String :=
         let inv := if decide (Alloc.AccInv s4) then 1 else 0
         s!"sbfb={s4.sbFreeBlocks}\tsbfi={s4.sbFreeInodes}\tgfb={natsStr (s4.groups.map (·.freeBlocks))}\tgfi={natsStr (s4.groups.map (·.freeInodes))}\tinv={inv}"
 
+/-- util/bitmap byte order (bit i = byte i/8, bit i%8 counted from the least significant) → the first `n` bits -/
+def bitsOfHex (n : Nat) (h : String) : Alloc.Bits :=
+  (((fromHex h).getD []).flatMap fun x => (List.range 8).map fun k => (x.toNat >>> k) % 2 == 1).take n
+
+def runsStr (rs : List (Nat × Nat)) : String := joinOr (rs.map fun r => s!"{r.1}+{r.2}")
+
+/-- "start+count,..." → the single blocks, in order -/
+def blocksOfRuns (s : String) : List Nat :=
+  if s == "-" || s == "" then [] else
+  (s.splitOn ",").flatMap fun t => match (t.splitOn "+").filterMap String.toNat? with
+    | [p, c] => (List.range c).map (p + ·)
+    | _ => []
+
+/-- ext4acc.remove: the image before a Remove (bitmaps, counters) and the removed inode's blocks → the machine's
+    Remove step → bitmaps and counters afterwards -/
+def accRemove (args : List String) : String :=
+  let geo : Alloc.Geom := ⟨argNatD args "fdb", argNatD args "bpg", argNatD args "ipg"⟩
+  let bbm := ((arg args "bbm").getD "").splitOn "/"
+  let ibm := ((arg args "ibm").getD "").splitOn "/"
+  let gfb := natList ((arg args "gfb").getD "-")
+  let gfi := natList ((arg args "gfi").getD "-")
+  let gud := natList ((arg args "gud").getD "-")
+  let groups : List Alloc.Group := (List.range gfb.length).map fun g =>
+    { bbm := bitsOfHex geo.bpg (bbm.getD g ""), ibm := bitsOfHex geo.ipg (ibm.getD g ""),
+      freeBlocks := gfb.getD g 0, freeInodes := gfi.getD g 0, usedDirs := gud.getD g 0 }
+  let s0 : Alloc.Acc := ⟨groups, argNatD args "sbfb", argNatD args "sbfi"⟩
+  let blocks := blocksOfRuns ((arg args "blocks").getD "-")
+  match Alloc.step s0 (.remove geo (argNatD args "ino") blocks (argNatD args "dir" == 1)) with
+  | .refused _ => "model-refused"
+  | .ok s =>
+    let inv := if decide (Alloc.AccInv s) then 1 else 0
+    s!"sbfb={s.sbFreeBlocks}\tsbfi={s.sbFreeInodes}\tgfb={natsStr (s.groups.map (·.freeBlocks))}\tgfi={natsStr (s.groups.map (·.freeInodes))}\tgud={natsStr (s.groups.map (·.usedDirs))}\tbruns={"/".intercalate (s.groups.map fun g => runsStr (Alloc.freeRuns g.bbm))}\tiruns={"/".intercalate (s.groups.map fun g => runsStr (Alloc.freeRuns g.ibm))}\tinv={inv}"
+
+/-- ext4acc.dealloc: the block bitmaps and counters before deallocateExtents and the extents it is given → the
+    model's release of those blocks (`fixed=0`: the group arithmetic as found) → bitmaps and counters afterwards -/
+def accDealloc (args : List String) : String :=
+  let geo : Alloc.Geom := ⟨argNatD args "fdb", argNatD args "bpg", 1⟩
+  let bbm := ((arg args "bbm").getD "").splitOn "/"
+  let gfb := natList ((arg args "gfb").getD "-")
+  let groups : List Alloc.Group := (List.range gfb.length).map fun g =>
+    { bbm := bitsOfHex geo.bpg (bbm.getD g ""), ibm := [], freeBlocks := gfb.getD g 0, freeInodes := 0, usedDirs := 0 }
+  let s0 : Alloc.Acc := ⟨groups, argNatD args "sbfb", 0⟩
+  let blocks := blocksOfRuns ((arg args "blocks").getD "-")
+  let marked := if Alloc.blocksMarkedD geo s0 blocks then 1 else 0
+  let s := Alloc.deallocBlocks (argNatD args "fixed" == 1) geo s0 blocks
+  s!"marked={marked}\tsbfb={s.sbFreeBlocks}\tgfb={natsStr (s.groups.map (·.freeBlocks))}\tbruns={"/".intercalate (s.groups.map fun g => runsStr (Alloc.freeRuns g.bbm))}"
+
+/-- ext4links.step: the link count of the parent directory and the used-directories counters before a Mkdir /
+    create / Symlink / Remove → the model's bookkeeping → the same numbers afterwards (and the new inode's) -/
+def linksStep (args : List String) : String :=
+  let p := argNatD args "p"
+  let k := argNatD args "k"
+  let dir := argNatD args "dir" == 1
+  let used := natList ((arg args "used").getD "-")
+  let s0 : Links.LState :=
+    { live := [p], isDir := fun i => i == p, parent := fun _ => p, links := fun i => if i == p then argNatD args "plinks" else 0,
+      usedDirs := fun g => used.getD g 0, ipg := argNatD args "ipg" }
+  let usedStr := fun (s : Links.LState) => natsStr ((List.range used.length).map s.usedDirs)
+  match arg args "op" with
+  | some "mk" =>
+    let s := Links.lstep s0 (.mk p k dir)
+    s!"plinks={s.links p}\tklinks={s.links k}\tused={usedStr s}"
+  | some "rm" =>
+    let s1 : Links.LState := { s0 with live := [p, k], isDir := fun i => i == p || (i == k && dir),
+                                       links := fun i => if i == p then argNatD args "plinks" else argNatD args "klinks" }
+    let s := Links.lstep s1 (.rm k)
+    s!"plinks={s.links p}\tgone={if s.live.contains k then 0 else 1}\tused={usedStr s}"
+  | _ => "unknown-op"
+
 end Driver.Ext4Ops
 
 def main : IO Unit := Driver.runLoop fun op args =>
@@ -158,6 +276,11 @@ def main : IO Unit := Driver.runLoop fun op args =>
   | "ext4.rw" => Driver.Ext4Ops.rw args
   | "ext4.bitmap" => Driver.Ext4Ops.bitmapOp args
   | "ext4.dirpack" => Driver.Ext4Ops.dirpack args
+  | "ext4.dirrewrite" => Driver.Ext4Ops.dirRewrite args
   | "ext4alloc.fast" => Driver.Ext4Ops.allocFast args
+  | "ext4alloc.policy" => Driver.Ext4Ops.allocPolicyOp args
   | "ext4acc.step" => Driver.Ext4Ops.accStep args
+  | "ext4acc.remove" => Driver.Ext4Ops.accRemove args
+  | "ext4acc.dealloc" => Driver.Ext4Ops.accDealloc args
+  | "ext4links.step" => Driver.Ext4Ops.linksStep args
   | _ => "unknown-op"
